@@ -15,3 +15,11 @@ def c03(ctx, rep):
 
 def c19(ctx, rep):
     pass
+
+
+def c10(ctx, rep):
+    pass
+
+
+def c08(ctx, rep):
+    pass
